@@ -290,12 +290,28 @@ def check(run, replay=None):
         t0 = time.time()
         traces = pipe_run.run_schedules(binp, scheds, d, tag="x")
         t1 = time.time()
-        viols, results = pipe_run.judge(traces, d)
-        log("phase: %d schedules executed in %.1fs, judged in %.1fs" % (len(scheds), t1 - t0, time.time() - t1))
+        cand = [t for t in traces if t["cfg"]["kind"] in pipe_run.STAGE_KINDS]
+        sample = cand if len(cand) <= (2500 if th else 240) else rng.sample(cand, 2500 if th else 240)
+        # (4) TRACE-P judges (the verdict) and, concurrently, (5) TRACE-I: the recorded executions of the stage family must be
+        # behaviours of Stage.tla (the binding; a rejection is SPEC-DRIFT, not a verdict)
+        (viols, results), bound = par([lambda: pipe_run.judge(traces, d), lambda: pipe_run.bind_stage(sample, d) if sample else None], 2)
+        log("phase: %d schedules executed in %.1fs, judged + bound in %.1fs" % (len(scheds), t1 - t0, time.time() - t1))
         for r in results:
             run.add_mc("PipeTraceP", r, {"traces": "batch"})
         run.traces += len(traces)
         report(run, pid, scheds, traces, viols)
+        if bound:
+            acc, rej, bres = bound
+            for r in bres:
+                run.add_mc("StageTraceI", r, {"traces": "batch"})
+            run.notes["trace_I_accepted"] = acc
+            run.notes["trace_I_rejected"] = len(rej)
+            for i, hw in rej[:10]:
+                t = sample[i]
+                run.drift.append("trace=%s/%s at=window %d (%s): the model cannot explain %s with snapshot %s" % (
+                    ("fork." if t["cfg"]["forked"] else "pipe.") + t["cfg"]["kind"], t.get("origin"), hw + 1,
+                    cmd_str(t["wins"][hw]["cmd"]) if hw < len(t["wins"]) else "-", json.dumps(t["wins"][hw]["done"])[:200] if hw < len(t["wins"]) else "", json.dumps(t["wins"][hw]["q"]) if hw < len(t["wins"]) else ""))
+            log("phase: TRACE-I %d stage traces, %d accepted, %d rejected" % (len(sample), acc, len(rej)))
         if pid == "C09" and th:
             race_pass(run, scheds, d, rng)
         kinds = collections.Counter((t["cfg"]["kind"], t.get("origin", "")) for t in traces)
